@@ -1,17 +1,11 @@
 package main
 
 import (
-	"encoding/json"
-	"fmt"
-	"os"
-	"path/filepath"
 	"time"
 
-	"github.com/0chain/common/core/statecache"
 	"verif/lib/chainsim"
+	"verif/lib/envs"
 	"verif/lib/ev"
-	"verif/lib/vmap"
-	"verif/lib/vtime"
 	"verif/lib/world"
 )
 
@@ -68,46 +62,13 @@ func governanceAlphabet(w *world.World) []chainsim.Action {
 	return acts
 }
 
-func seamSites() map[string]any {
-	out := map[string]any{}
-	for _, n := range []string{"maporder.sites.json", "clock.sites.json"} {
-		dir := "seams"
-		if s := os.Getenv("VERIF_BIN_SUFFIX"); s != "" {
-			dir = "seams." + s
-		}
-		if b, err := os.ReadFile(filepath.Join(ev.Root(), ".work", dir, n)); err == nil {
-			var v any
-			_ = json.Unmarshal(b, &v)
-			out[n] = v
-		}
-	}
-	return out
-}
-
-// determinismEnvs: every map order the seam can produce, both clock answers, warm caches.
-func determinismEnvs(lineage, shared *statecache.StateCache) []*chainsim.Env {
-	var envs []*chainsim.Env
-	for c := 1; c < 6; c++ {
-		c := c
-		envs = append(envs, &chainsim.Env{Name: fmt.Sprintf("maporder%d", c), Class: "maporder", Setup: func() { vmap.Choice = c }, Reset: func() { vmap.Choice = 0 }})
-	}
-	envs = append(envs,
-		&chainsim.Env{Name: "clock-epoch", Class: "clock", Setup: func() { vtime.Fixed = time.Unix(1, 0) }, Reset: func() { vtime.Fixed = time.Time{} }},
-		&chainsim.Env{Name: "clock-far-future", Class: "clock", Setup: func() { vtime.Fixed = time.Unix(4102444800, 0) }, Reset: func() { vtime.Fixed = time.Time{} }},
-	)
-	if lineage != nil {
-		envs = append(envs, &chainsim.Env{Name: "warm-lineage-cache", Cache: lineage})
-	}
-	return envs
-}
-
 func c06(run *ev.Run) {
 	w := world.New(world.Options{})
 	acts := governanceAlphabet(w)
 	e := &chainsim.Explorer{Run: run, W: w, Actions: acts, Depth: run.Pick(2, 3), Budget: time.Duration(run.Pick(50, 780)) * time.Second}
-	d := &chainsim.Differential{E: e, Prop: "C06", Envs: determinismEnvs, WarmLineage: true, KeyPrefix: "C06"}
+	d := &chainsim.Differential{E: e, Prop: "C06", Envs: envs.Determinism, WarmLineage: true, KeyPrefix: "C06"}
 	run.Rule = "every action sequence up to the depth bound (no dedup); each transition is executed on the same pre-state in the reference environment (sorted map order, real clock, cold cache) and again under every other environment answer: all map iteration orders of the settings loops (seam), two wall-clock answers (seam), cache warmed by the path's own lineage; (error, status, output, state root, change count, events) must be identical; distinct = distinct (root, output) pairs"
-	run.Extra["seam_sites"] = seamSites()
+	run.Extra["seam_sites"] = envs.SeamSites()
 	run.Assumptions = []string{"map-order nondeterminism is explored at the settings-update loops listed in seam_sites (pattern-matched range-over-map sites in the anchored settings files); other map ranges in contract code are not rewritten", "goroutine scheduling inside a transition is left to the Go scheduler (the helper goroutine is joined before anything is observed)", "one transaction per block"}
 	d.Run()
 }
@@ -119,9 +80,7 @@ func c07chain(run *ev.Run) {
 	acts := governanceAlphabet(w)
 	e := &chainsim.Explorer{Run: run, W: w, Actions: acts, Depth: run.Pick(2, 3), Budget: time.Duration(run.Pick(50, 780)) * time.Second}
 	d := &chainsim.Differential{E: e, Prop: "C07", WarmLineage: true, KeyPrefix: "C07:chain",
-		Envs: func(lineage, shared *statecache.StateCache) []*chainsim.Env {
-			return []*chainsim.Env{{Name: "warm-lineage-cache", Cache: lineage}, {Name: "fork-shared-cache", Cache: shared}}
-		}}
+		Envs: envs.Cache}
 	run.Rule = "every action sequence up to the depth bound over settings updates (successful, failing late after mutating the value returned by a read) and readers of the cached settings nodes; each transition executed with a cold cache (trie only), with the cache warmed by exactly the path's own blocks, and with one cache shared by all forks explored by the worker; outcomes must be identical"
 	run.Assumptions = []string{"cacheable entity types reached: minersc GlobalNode, storagesc Config, settings nodes; partitions/allocation/miner-node entities are covered by the scenario binaries' own cache parts when present"}
 	d.Run()
